@@ -22,6 +22,7 @@ CONSTANTS
   MaxAdm = @@MAXADM@@
   Acts = @@ACTS@@
   Atomic = @@ATOMIC@@
+  BlForms = @@BLFORMS@@
   Fixed = @@FIXED@@
   EmitActs = @@EMITACTS@@
   MaxHist = @@MAXHIST@@
